@@ -199,14 +199,14 @@ def run_dot(c, tier):
                         c.fail('C07|dot|value|ranks=%d,%d|%s|first_bad_order=%d' % (len(sa), len(sb), kinds, int(np.min(np.argwhere(z.data != ref)[:, 0]))), case,
                                {'index': [int(i) for i in bad], 'got': float(z.data[tuple(bad)]), 'expected': float(ref[tuple(bad)])})
     # trace
-    for shape in [(2, 2), (3, 3), (2, 3)]:
+    for shape in [(2, 2), (3, 3), (2, 3), (3, 2), (4, 2), (5, 1), (1, 4), (6, 3)]:
         for D in DMENU[tier]:
             X = dyfill((D, 2) + shape, D)
             c.out['evals'] += 1
             t = algopy.trace(UTPM(X.copy()))
             ref = np.array([[np.trace(X[d, p]) for p in range(2)] for d in range(D)])
             if t.data.shape != ref.shape or not np.array_equal(t.data, ref):
-                c.fail('C07|trace|value', {'op': 'trace', 'shape': list(shape), 'D': D}, {})
+                c.fail('C07|trace|value|%s' % ('square' if shape[0] == shape[1] else ('tall' if shape[0] > shape[1] else 'wide')), {'op': 'trace', 'shape': list(shape), 'D': D}, {})
 
 
 def run_outer(c, tier):
@@ -379,6 +379,71 @@ def run_deviations(c, u):
             check_residual(c, 'solve (single-entry deviations)', A, X, Bd, case, 50)
         except Exception as ex:
             c.fail('C07|deviations|raises|N=%d' % N, case, {'error': '%s: %s' % (type(ex).__name__, str(ex)[:160])})
+        # all 2^(D-1) SUPPORT patterns of the higher coefficients (which orders are exactly zero), for A and for B
+        pats = list(itertools.product((0, 1), repeat=D - 1))
+        P = len(pats)
+        A = np.zeros((D, P, N, N))
+        A[0] = A0
+        dense = dyfill((D - 1, P, N, N), 3)
+        for p, pat in enumerate(pats):
+            for k, on in enumerate(pat):
+                if on:
+                    A[k + 1, p] = dense[k, p]
+        Bd = dyfill((D, P, N, 2), 5)
+        Bs = Bd.copy()
+        for p, pat in enumerate(pats):
+            for k, on in enumerate(pat[::-1]):
+                if not on:
+                    Bs[k + 1, p] = 0
+        case = {'fn': 'support-patterns', 'piv': list(piv), 'D': D}
+        c.out['evals'] += 3 * P
+        c.out['keys'] += ['supp|%d|%s|%d' % (N, piv, p) for p in range(P)]
+        try:
+            X = algopy.inv(UTPM(A.copy())).data
+            Bi = np.zeros_like(A)
+            Bi[0] = np.eye(N)
+            check_residual(c, 'inv (support patterns)', A, X, Bi, case, 50)
+            X = algopy.solve(UTPM(A.copy()), UTPM(Bs.copy())).data
+            check_residual(c, 'solve (support patterns)', A, X, Bs, case, 50)
+            dt = algopy.det(UTPM(A.copy())).data
+            for p in range(P):
+                tot, maj = det_series(mser(A[:, p]))
+                ref = np.array([float(v) for v in tot])
+                if not np.all(np.abs(dt[:, p] - ref) <= 64 * EPS * (np.maximum.accumulate(np.array([float(v) for v in maj])) + 1) * 50 * D):
+                    c.fail('C07|det|value|support patterns', dict(case, direction=p, pattern=list(pats[p])), {'got': dt[:, p].tolist(), 'expected': ref.tolist()})
+                    break
+        except Exception as ex:
+            c.fail('C07|support patterns|raises|N=%d' % N, case, {'error': '%s: %s' % (type(ex).__name__, str(ex)[:160])})
+        # memory layouts: the same matrices presented as transposing views (each (d,p) slice Fortran-contiguous) and as
+        # strided views; results must be identical and the operand untouched
+        if N >= 2:
+            Ad = np.zeros((D, 2, N, N))
+            Ad[0] = A0
+            Ad[1:] = dyfill((D - 1, 2, N, N), 9)
+            for lay in ('F', 'strided'):
+                for fname, f in (('inv', algopy.inv), ('det', algopy.det), ('logdet', algopy.logdet), ('solve', lambda a: algopy.solve(a, UTPM(dyfill((D, 2, N, 2), 4))))):
+                    if fname == 'logdet' and np.linalg.det(A0) < 0.5:
+                        continue
+                    if lay == 'F':
+                        x = UTPM(np.ascontiguousarray(np.swapaxes(Ad, -1, -2))).T
+                    else:
+                        big = np.full((D, 2, N, 2 * N), 7.5)
+                        big[..., ::2] = Ad
+                        x = UTPM(big[..., ::2])
+                    snap = x.data.copy()
+                    c.out['evals'] += 1
+                    cs = {'fn': fname, 'layout': lay, 'piv': list(piv), 'D': D}
+                    try:
+                        r1 = f(x)
+                        r2 = f(x)                       # the same object again
+                        r0 = f(UTPM(Ad.copy()))
+                    except Exception as ex:
+                        c.fail('C07|%s|raises|layout %s' % (fname, lay), cs, {'error': str(ex)[:160]})
+                        continue
+                    if not np.array_equal(x.data, snap):
+                        c.fail('C07|%s|operand modified|layout %s' % (fname, lay), cs, {})
+                    elif not (np.allclose(r1.data, r0.data, rtol=1e-12, atol=1e-13) and np.allclose(r2.data, r0.data, rtol=1e-12, atol=1e-13)):
+                        c.fail('C07|%s|result depends on memory layout / repeated call|layout %s' % (fname, lay), cs, {})
 
 
 def run_expm(c, u):
